@@ -1,4 +1,5 @@
 import Sudachi.Proofs.Params
+import Sudachi.Proofs.ParamsCfg
 /-!
 # C20 — Out-of-range plugin parameters are rejected when the dictionary is loaded
 
@@ -306,6 +307,288 @@ theorem nonsquare_counterexample :
     buildLattice true ⟨4, 2, List.replicate 8 0⟩ 1 [⟨0, 1, 3, 0⟩] (bosEnds 1) = crash := by
   refine ⟨by decide, by decide⟩
 
+
+/-! # Depth round: signedness, non-square matrices, every other parameter, user dictionaries -/
+
+/-! ## signedness (ids are `i64` in JSON, `i16` in unk.def / inhibit pairs / lexicon, `u16`/`usize` at the matrix) -/
+
+/-- A negative id is rejected by every check, for every variant and every matrix: the JSON check tests
+`x < 0` first, the unk.def test casts the `i16` through `as usize` (a negative value becomes ≥ 2^64 − 32768,
+far above any dimension), the inhibit test has an explicit `< 0`. -/
+theorem negative_ids_rejected (ge : Bool) (n : Nat) (hn : n < 9223372036854775808) (x : Int) (hx : x < 0) :
+    checkId ge n x = err .dataFormat ∧
+    (-32768 ≤ x → unkIdBad ge n x = true) ∧
+    (∀ (m : Matrix) (y : Int), pairInRange m (x, y) = false ∧ pairInRange m (y, x) = false) := by
+  refine ⟨by simp [checkId, hx], ?_, ?_⟩
+  · intro h
+    have := asUsize_neg hx h
+    cases ge <;> simp [unkIdBad] <;> omega
+  · intro m y
+    simp [pairInRange, hx]
+
+/-- The signed comparison of seeded change C20b (`oov.left_id >= num_left as i16`) accepts EVERY negative
+id for every dimension up to `i16::MAX`, and the node then carries `x as u16 ≥ 32768`; the comparison in
+the tree rejects it. -/
+theorem unk_signed_compare_counterexample (n : Nat) (hn : n ≤ 32767) (x : Int) (hx : x < 0) (hx' : -32768 ≤ x) :
+    unkIdBadSigned n x = false ∧ 32768 ≤ asU16 x ∧ unkIdBad true n x = true := by
+  have e : asI16 (n : Int) = n := asI16_of_fits (by omega) (by omega)
+  refine ⟨?_, ?_, ?_⟩
+  · simp [unkIdBadSigned, e]; omega
+  · unfold asU16; omega
+  · exact (negative_ids_rejected true n (by omega) x hx).2.1 hx'
+
+/-- Per provider, any matrix shape, repaired comparisons: every id a loaded provider attaches to a
+node is `<` the dimension it was CHECKED against (left id: `num_left`, right id: `num_right`), and the
+cost fits `i16`. -/
+theorem provider_ids_in_range (v : Variant) (hv1 : v.jsonGe = true) (hv2 : v.unkGe = true)
+    (cdef : List (List Char)) (g : Grammar) (cfg : Cfg) (ld : Loaded)
+    (hnl : g.conn.nl ≤ 65535) (hnr : g.conn.nr ≤ 65535) (h : load v cdef g cfg = ok ld) :
+    ∀ p ∈ ld.provs, ∀ e ∈ provNodes p, e.l < g.conn.nl ∧ e.r < g.conn.nr ∧ -32768 ≤ e.c ∧ e.c ≤ 32767 := by
+  have f := load_facts hnl hnr h
+  intro p hp e he
+  have := provNodes_ok (m := g.conn) hnl hnr (f.provs_ok p hp) e he
+  cases p <;> simp only [hv1, hv2, IdOk, if_true] at this <;> exact this
+
+/-! ## non-square matrices (D17): which dimension bounds which id -/
+
+/-- `ConnectionMatrix::cost(left, right)`: in a debug build the call returns iff `left < num_left` and
+`right < num_right`; in a release build the read is inside the buffer iff `right * num_left + left <
+num_left * num_right` (so a wrong `left` can silently alias another cell). -/
+theorem matrix_cost_bounds (m : Matrix) (hwf : m.WF) (a b : Nat) :
+    ((∃ c, m.cost true a b = ok c) ↔ a < m.nl ∧ b < m.nr) ∧
+    (m.cost false a b = ub ↔ ¬ (b * m.nl + a < m.nl * m.nr)) := by
+  unfold Matrix.WF at hwf
+  constructor
+  · constructor
+    · intro ⟨c, h⟩
+      unfold Matrix.cost Matrix.index at h
+      by_cases h1 : a < m.nl <;> by_cases h2 : b < m.nr <;> simp [h1, h2] at h ⊢
+    · intro ⟨h1, h2⟩
+      exact Matrix.cost_ok true hwf h1 h2
+  · unfold Matrix.cost Matrix.index
+    simp only [Bool.false_and, Bool.false_eq_true, if_false]
+    by_cases h : b * m.nl + a < m.cells.length
+    · rw [List.getElem?_eq_getElem h]; simp; omega
+    · rw [List.getElem?_eq_none (by omega)]; simp; omega
+
+/-- The lattice calls `cost(l_node.right_id, r_node.left_id)`: a node's LEFT id is bounded by
+`num_right` and its RIGHT id by `num_left`.  For ANY matrix shape, candidates that satisfy these
+bounds never trip an assertion and never read outside the matrix. -/
+theorem no_oob_in_analysis_nonsquare (m : Matrix) (hwf : m.WF) (hnl : 0 < m.nl) (hnr : 0 < m.nr)
+    (len : Nat) (nodes : List LNode)
+    (hnodes : ∀ nd ∈ nodes, nd.b ≤ len ∧ nd.e ≤ len ∧ nd.left < m.nr ∧ nd.right < m.nl) (dbg : Bool) :
+    ∃ c, buildLattice dbg m len nodes (bosEnds len) = ok c := by
+  have hb := bosEnds_ok (m := m) hnl len
+  apply buildLattice_ok dbg hwf hnr len nodes _ hb.1 hb.2
+  intro nd hnd
+  obtain ⟨h1, h2, h3, h4⟩ := hnodes nd hnd
+  exact ⟨h3, h4, h1, h2⟩
+
+/-- D17 for every shape with fewer columns than rows: `leftId = num_right` passes even the repaired
+check (it is compared with `num_left`), and the first node that carries it trips the assertion. -/
+theorem nonsquare_counterexample_general (nl nr : Nat) (h : nr < nl) (hnl : nl ≤ 65535) (hnr : 0 < nr) (cells : List Int)
+    (hlen : cells.length = nl * nr) :
+    checkLeftId (repaired true) ⟨nl, nr, cells⟩ nr = ok nr ∧
+    buildLattice true ⟨nl, nr, cells⟩ 1 [⟨0, 1, nr, 0⟩] (bosEnds 1) = crash := by
+  have e : asU16 (nr : Int) = nr := by rw [asU16_toNat (by omega) (by omega)]; simp
+  constructor
+  · have hc := checkId_of (ge := true) (n := nl) (x := (nr : Int)) (by omega) (by simp; omega)
+    rw [e] at hc
+    simpa [checkLeftId, repaired] using hc
+  · have hnl0 : 0 < nl := by omega
+    simp [buildLattice, bosEnds, connectNode, Matrix.cost, Matrix.index, hnl0]
+
+/-- The repair that was examined: compare `leftId` with `num_right` and `rightId` with `num_left`
+(the dimensions the ids are USED on).  In the model it makes the consequence clause true for every
+shape — but the same swap would be needed in `read_oov`, in the builder's `validate_entries` and in
+the matrix header semantics, so it is not a small safe change and D17 stays a finding. -/
+theorem swapped_checks_sound (m : Matrix) (hnl : m.nl ≤ 65535) (hnr : m.nr ≤ 65535) (l r : Int) (l' r' : Nat)
+    (hl : checkId true m.nr l = ok l') (hr : checkId true m.nl r = ok r') (b e len : Nat) (hb : b ≤ len) (he : e ≤ len) :
+    NodeOk m len ⟨b, e, l', r'⟩ := by
+  have a := (checkId_IdOk hl hnr).1
+  have c := (checkId_IdOk hr hnl).1
+  simp only [IdOk, if_true] at a c
+  exact ⟨a, c, hb, he⟩
+
+/-! ## the settings as `serde_json` delivers them: ill-typed or out-of-range values are load errors -/
+
+/-- Every successful load of a raw configuration went through a successful load of the TYPED
+configuration obtained by deserialising every provider's settings (so all theorems above apply to
+it), every input-text plugin was accepted, and — in particular — no provider had an ill-typed
+field: `leftId`/`rightId`/`cost` are JSON integers inside `i64`, `oovPOS` a list of strings,
+`userPOS` ∈ {allow, forbid} or absent, `maxLength` an integer in `0 … 2^64−1` or absent,
+`boundaries` ∈ {strict, relaxed} or absent. -/
+theorem raw_load_is_typed_load (v : Variant) (v2 : Variant2) (ym : Nat) (cdef : List (List Char)) (np : Pos)
+    (g : Grammar) (cfg : RCfg) (ld : LoadedR) (h : loadR v v2 ym cdef np g cfg = ok ld) :
+    (∀ r ∈ cfg.oov, ∃ c, deserOov r = some c) ∧
+    ∃ cx, deserAll cfg.oov = some cx ∧
+      load v cdef g ⟨cfg.inh, cx.map (·.1), cfg.users.map (·.pos)⟩ = ok ⟨ld.g, ld.provs.map (·.1)⟩ := by
+  obtain ⟨cx, h1, _, h3, _, _⟩ := loadR_typed h
+  exact ⟨deserAll_mem h1, cx, h1, h3⟩
+
+/-- Ill-typed values of the numeric parameters are rejected: a provider whose `leftId` (or any other
+integer field) is a float, a string, `null`, a boolean, an array, missing, or an integer outside `i64`
+never loads. -/
+theorem ill_typed_rejected (pos l r c mode : JF) (hl : ∀ x : Int, l = .int x → ¬ (I64MIN ≤ x ∧ x ≤ I64MAX)) :
+    deserOov (.simple pos l r c mode) = none ∧ deserOov (.simple pos r l c mode) = none ∧
+    deserOov (.simple pos r c l mode) = none ∧
+    ∀ ml b, deserOov (.regex pos l r c mode ml b) = none := by
+  have e : deI64 l = none := by
+    cases l <;> simp [deI64]
+    rename_i x
+    exact fun h1 => Int.not_le.mp (fun h2 => hl x rfl ⟨h1, h2⟩)
+  refine ⟨?_, ?_, ?_, ?_⟩
+  · simp only [deserOov, e]; split <;> simp_all
+  · simp only [deserOov, e]; split <;> simp_all
+  · simp only [deserOov, e]; split <;> simp_all
+  · intro ml b; simp only [deserOov, e]; split <;> simp_all
+
+/-- With the repaired inhibit `set_up` the raw load — all four plugin kinds and the user
+dictionaries — returns a dictionary or an error value for EVERY configuration, whatever the shapes
+of its values: never a panic, never undefined behaviour. -/
+theorem raw_load_never_panics (v : Variant) (hv : v.inhChecked = true) (v2 : Variant2) (ym : Nat)
+    (cdef : List (List Char)) (np : Pos) (g : Grammar) (cfg : RCfg)
+    (hnl : g.conn.nl ≤ 65535) (hnr : g.conn.nr ≤ 65535) (hwf : g.conn.WF) :
+    (∃ ld, loadR v v2 ym cdef np g cfg = ok ld) ∨ (∃ k, loadR v v2 ym cdef np g cfg = err k) := by
+  have := loadR_safe hv v2 ym cdef np g cfg hnl hnr hwf
+  cases hl : loadR v v2 ym cdef np g cfg with
+  | ok ld => exact Or.inl ⟨ld, rfl⟩
+  | err k => exact Or.inr ⟨k, rfl⟩
+  | crash => rw [hl] at this; cases this
+  | ub => rw [hl] at this; cases this
+
+/-! ## `maxLength` of the regex provider: accepted, then added to an offset -/
+
+/-- Full statement, true for the repair `offset.saturating_add(self.max_length)`: for EVERY accepted
+`maxLength` (any `usize`), every text and every offset inside it, `provide_oov` computes a slice
+`offset..e` with `offset ≤ e ≤ len` — no overflow, no inverted slice, debug and release. -/
+theorem regex_max_length_no_panic (dbg : Bool) (ml : JF) (n : Nat) (h : deUsizeD 32 ml = some n)
+    (offset len : Nat) (ho : offset ≤ len) (hl : len < TWO64) :
+    ∃ e, regexEnd true dbg n offset len = ok e ∧ offset ≤ e ∧ e ≤ len := by
+  have _ := deUsizeD_lt (by decide) h
+  obtain ⟨e, h1, h2, h3, _⟩ := regexEnd_sat dbg (maxLen := n) ho hl
+  exact ⟨e, h1, h2, h3⟩
+
+/-- What holds for the addition as it stands: no panic as long as `offset + maxLength` fits `usize`. -/
+theorem regex_max_length_no_panic_partial (sat dbg : Bool) (n offset len : Nat) (ho : offset ≤ len)
+    (hs : offset + n < TWO64) : ∃ e, regexEnd sat dbg n offset len = ok e ∧ offset ≤ e ∧ e ≤ len := by
+  obtain ⟨e, h1, h2, h3, _⟩ := regexEnd_small sat dbg (maxLen := n) ho hs
+  exact ⟨e, h1, h2, h3⟩
+
+/-- F-MAXLEN: `maxLength = 2^64 − 1` is a well-typed `usize` and is accepted, and then `provide_oov`
+panics at EVERY offset ≥ 1 of every text — in a debug build at the addition, in a release build at the
+slice `offset..offset−1`. -/
+theorem regex_max_length_counterexample (offset len : Nat) (h1 : 1 ≤ offset) (ho : offset ≤ len) (hl : len < TWO64) :
+    deUsizeD 32 (.int 18446744073709551615) = some 18446744073709551615 ∧
+    regexEnd false true 18446744073709551615 offset len = crash ∧
+    regexEnd false false 18446744073709551615 offset len = crash := by
+  refine ⟨by decide, ?_, ?_⟩
+  · exact regexEnd_overflow true (by decide) ho hl (by unfold TWO64; omega)
+  · exact regexEnd_overflow false (by decide) ho hl (by unfold TWO64; omega)
+
+/-! ## `maxYomiganaLength`, brackets, prolonged sound marks, `minLength`, `oovPOS` of path-rewrite plugins -/
+
+/-- IgnoreYomigana: accepted ⇒ both bracket lists are non-empty lists of single characters and
+`1 ≤ maxYomiganaLength ≤` the bound of the regex compiler; `0`, negative, fractional, string values and
+empty bracket lists are errors (`{1,0}` / an unclosed class are rejected by the regex crate). -/
+theorem yomigana_params_checked (ym : Nat) (lb rb ml : JF) (h : setUpInput ym (.yomigana lb rb ml) = ok ()) :
+    ∃ (l r : List (List Char)) (n : Nat), lb = .strs l ∧ rb = .strs r ∧ ml = .int n ∧
+      l ≠ [] ∧ r ≠ [] ∧ (∀ s ∈ l, charCount s = 1) ∧ (∀ s ∈ r, charCount s = 1) ∧ 1 ≤ n ∧ n ≤ ym :=
+  yomigana_ok h
+
+/-- ProlongedSoundMark: accepted ⇒ a non-empty list of single characters and an absent / null / string
+replacement. -/
+theorem prolonged_params_checked (ym : Nat) (marks repl : JF) (h : setUpInput ym (.prolonged marks repl) = ok ()) :
+    ∃ ms : List (List Char), marks = .strs ms ∧ ms ≠ [] ∧ (∀ s ∈ ms, charCount s = 1) ∧ deOptStr repl = true :=
+  prolonged_ok h
+
+/-- JoinKatakanaOov: accepted ⇒ `oovPOS` is a list of strings naming an EXISTING part of speech (it is
+looked up, never registered: `userPOS` does not apply), the id is the first equal entry, and
+`minLength` is a non-negative integer that fits `usize` (it is only compared, never added). -/
+theorem katakana_params_checked (np : Pos) (pl : List Pos) (pos ml : JF) (id n : Nat)
+    (h : setUpPath np pl (.katakana pos ml) = ok (id, n)) :
+    ∃ p : Pos, pos = .strs p ∧ getPosId pl p = some id ∧ n < TWO64 ∧ ∃ x : Int, ml = .int x ∧ 0 ≤ x ∧ n = x.toNat :=
+  katakana_ok h
+
+/-- a POS list of the wrong arity is an error for every plugin that takes one (never a panic) -/
+theorem wrong_arity_rejected (pl : List Pos) (p : Pos) (hp : p.length ≠ 6) (mode : Mode) (np : Pos) (ml : JF) (n : Nat)
+    (hn : deUsize ml = some n) :
+    handleUserPos pl p mode = err .pos ∧ setUpPath np pl (.katakana (.strs p) ml) = err .pos := by
+  have e : getPosId pl p = none := by simp [getPosId, hp]
+  refine ⟨?_, ?_⟩
+  · cases mode <;> simp [handleUserPos, e, registerPos, hp]
+  · simp [setUpPath, deStrs, hn, e]
+
+/-! ## user dictionaries: are the ids of their words checked when the dictionary is LOADED? -/
+
+/-- Full statement, true for the repaired `merge_user_dictionary` (variant `udic`): after a successful
+load every indexed word of every user dictionary has `left_id < num_left` and `right_id < num_right` of
+the SYSTEM matrix it is loaded with (whatever dictionary it was compiled against). -/
+theorem user_dict_ids_checked (v : Variant) (v2 : Variant2) (hu : v2.udic = true) (ym : Nat) (cdef : List (List Char))
+    (np : Pos) (g : Grammar) (cfg : RCfg) (ld : LoadedR) (h : loadR v v2 ym cdef np g cfg = ok ld)
+    (hi16 : ∀ u ∈ cfg.users, ∀ w ∈ u.words, -32768 ≤ w.1 ∧ w.1 ≤ 32767 ∧ -32768 ≤ w.2 ∧ w.2 ≤ 32767) :
+    ∀ lr ∈ userNodes cfg.users, lr.1 < ld.g.conn.nl ∧ lr.2 < ld.g.conn.nr := by
+  obtain ⟨_, _, _, _, _, hud⟩ := loadR_typed h
+  intro lr hlr
+  simp only [userNodes, List.mem_map, List.mem_filter, List.mem_flatten] at hlr
+  obtain ⟨w, ⟨⟨ws, ⟨u, hu', hws⟩, hw⟩, hw0⟩, hlr⟩ := hlr
+  subst hws hlr
+  obtain ⟨a, b, c, d⟩ := hi16 u hu' w hw
+  exact udicBad_false (hud hu u hu' w hw) a b c d (by simpa using hw0)
+
+/-- F-UDIC on the tree as it stands: a user dictionary whose word has ids `(5, 5)` — valid for the 6 × 6
+dictionary it was compiled against — loads next to a 3 × 3 system dictionary, and the node of that word
+makes the lattice trip the bounds assertion (debug) / read outside the matrix (release); the repaired
+load rejects it. -/
+theorem user_dict_ids_counterexample :
+    let pos : Pos := [['a'], ['b'], ['c'], ['d'], ['e'], ['f']]
+    let g : Grammar := ⟨[pos], ⟨3, 3, List.replicate 9 0⟩⟩
+    let cfg : RCfg := ⟨[], [], [.simple (.strs pos) (.int 0) (.int 0) (.int 0) .absent], [], [⟨[], [(5, 5)]⟩]⟩
+    (∃ ld, loadR (repaired true) ⟨true, false⟩ 25000 [] pos g cfg = ok ld) ∧
+    loadR (repaired true) ⟨true, true⟩ 25000 [] pos g cfg = err .dataFormat ∧
+    userNodes cfg.users = [(5, 5)] ∧
+    buildLattice true g.conn 1 [⟨0, 1, 5, 5⟩] (bosEnds 1) = crash ∧
+    buildLattice false g.conn 1 [⟨0, 1, 5, 5⟩] (bosEnds 1) = ub := by
+  refine ⟨⟨_, rfl⟩, rfl, by decide, by decide, by decide⟩
+
+/-- The consequence clause with user dictionaries in it (all repairs, square matrix): after a
+successful raw load, the lattice over ANY candidates that come from validated system-lexicon entries,
+from the loaded providers or from the indexed words of the loaded user dictionaries never indexes
+outside the matrix. -/
+theorem no_oob_in_analysis_with_user_words (v : Variant) (hv1 : v.jsonGe = true) (hv2 : v.unkGe = true)
+    (v2 : Variant2) (hu : v2.udic = true) (ym : Nat) (cdef : List (List Char)) (np : Pos) (g : Grammar)
+    (cfg : RCfg) (ld : LoadedR) (n : Nat) (hnl : g.conn.nl = n) (hnr : g.conn.nr = n) (hn : 0 < n) (hn2 : n ≤ 65535)
+    (hwf : g.conn.WF) (h : loadR v v2 ym cdef np g cfg = ok ld)
+    (hi16 : ∀ u ∈ cfg.users, ∀ w ∈ u.words, -32768 ≤ w.1 ∧ w.1 ≤ 32767 ∧ -32768 ≤ w.2 ∧ w.2 ≤ 32767)
+    (len : Nat) (nodes : List LNode)
+    (hnodes : ∀ nd ∈ nodes, nd.b ≤ len ∧ nd.e ≤ len ∧
+      ((nd.left < n ∧ nd.right < n) ∨ (∃ p ∈ ld.provs, ∃ e ∈ provNodes p.1, nd.left = e.l ∧ nd.right = e.r) ∨
+       (nd.left, nd.right) ∈ userNodes cfg.users))
+    (dbg : Bool) :
+    ∃ c, buildLattice dbg ld.g.conn len nodes (bosEnds len) = ok c := by
+  obtain ⟨cx, _, _, hload, _, _⟩ := loadR_typed h
+  have f := load_facts (by omega) (by omega) hload
+  have hnl' : ld.g.conn.nl = n := by have := f.nl_eq; simp only at this; omega
+  have hnr' : ld.g.conn.nr = n := by have := f.nr_eq; simp only at this; omega
+  have hwf' : ld.g.conn.WF := by
+    have := f.len_eq; simp only at this
+    unfold Matrix.WF at hwf ⊢; rw [this, hnl', hnr', hwf, hnl, hnr]
+  have hb := bosEnds_ok (m := ld.g.conn) (by omega) len
+  apply buildLattice_ok dbg hwf' (by omega) len nodes _ hb.1 hb.2
+  intro nd hnd
+  obtain ⟨h1, h2, h3⟩ := hnodes nd hnd
+  have key : nd.left < n ∧ nd.right < n := by
+    rcases h3 with h3 | ⟨⟨p1, x1⟩, hp, e, he, hl, hr⟩ | h3
+    · exact h3
+    · have hp' : p1 ∈ ld.provs.map (·.1) := List.mem_map.mpr ⟨(p1, x1), hp, rfl⟩
+      simp only at he
+      have := provNodes_ok (m := g.conn) (by omega) (by omega) (f.provs_ok p1 hp') e he
+      cases p1 <;> simp only [hv1, hv2, IdOk, if_true] at this <;> omega
+    · have := user_dict_ids_checked v v2 hu ym cdef np g cfg ld h hi16 _ h3
+      simp only at this
+      omega
+  exact ⟨by omega, by omega, h1, h2⟩
+
 /-! ## non-vacuity of the hypotheses -/
 
 /-- a 2 × 2 dictionary, one Simple provider and one inhibited pair: the load succeeds for the
@@ -327,6 +610,38 @@ example : getPosId [[['a'], ['b'], ['c'], ['d'], ['e'], ['f']]] [['x'], ['b'], [
 /-- `accepted_in_range` is not vacuous: `2` is accepted on a 3 × 3 matrix by both comparisons -/
 example : checkLeftId (repaired true) ⟨3, 3, []⟩ 2 = ok 2 ∧ checkLeftId (cur true) ⟨3, 3, []⟩ 2 = ok 2 ∧
     checkLeftId (repaired true) ⟨3, 3, []⟩ 3 = err .dataFormat := by
+  refine ⟨by decide, by decide, by decide⟩
+
+
+/-- the raw layer is not vacuous: a configuration with every bundled plugin kind and a fitting user
+dictionary loads in the fully repaired variant; `maxLength = 2^64 − 1` is accepted, harmless at offset 0
+and fatal at offset 1 only for the unrepaired addition -/
+example :
+    let pos : Pos := [['a'], ['b'], ['c'], ['d'], ['e'], ['f']]
+    let g : Grammar := ⟨[pos], ⟨2, 2, [1, 2, 3, 4]⟩⟩
+    let cfg : RCfg := ⟨[[(1, 0)]], [.prolonged (.strs [['-']]) .absent, .yomigana (.strs [['(']]) (.strs [[')']]) (.int 4)],
+      [.regex (.strs pos) (.int 1) (.int 1) (.int (-7)) (.str "forbid".toList) (.int 18446744073709551615) (.str "relaxed".toList)],
+      [.katakana (.strs pos) (.int 2), .numeric .null], [⟨[], [(1, 1), (-1, -1)]⟩]⟩
+    (∃ ld, loadR (repaired true) ⟨true, true⟩ 25000 [] pos g cfg = ok ld ∧ ld.g.conn.cells = [1, 32767, 3, 4] ∧
+      ld.provs.map (·.2) = [⟨18446744073709551615, true⟩]) ∧
+    regexAsk false true ⟨18446744073709551615, true⟩ 0 6 = ok (some 1) ∧
+    regexAsk false true ⟨18446744073709551615, true⟩ 1 6 = crash ∧
+    regexAsk true true ⟨18446744073709551615, true⟩ 1 6 = ok (some 2) := by
+  refine ⟨⟨_, rfl, by decide, by decide⟩, by decide, by decide, by decide⟩
+
+/-- the hypotheses of the parameter theorems are satisfiable -/
+example : setUpInput 25000 (.yomigana (.strs [['(']]) (.strs [[')']]) (.int 4)) = ok () ∧
+    setUpInput 25000 (.yomigana (.strs [['(']]) (.strs [[')']]) (.int 0)) = err .plugin ∧
+    setUpInput 25000 (.yomigana (.strs []) (.strs [[')']]) (.int 4)) = err .plugin ∧
+    setUpInput 25000 (.yomigana (.strs [['(']]) (.strs [[')']]) (.int (-1))) = err .serde ∧
+    setUpInput 25000 (.prolonged (.strs [['-']]) .null) = ok () ∧
+    setUpInput 25000 (.prolonged (.strs [['a', 'b']]) .null) = err .serde ∧
+    deUsizeD 32 .absent = some 32 ∧ deUsize .float = none := by
+  refine ⟨by decide, by decide, by decide, by decide, by decide, by decide, by decide, by decide⟩
+
+/-- `swapped_checks_sound` / `no_oob_in_analysis_nonsquare` are not vacuous: on a 4 × 2 matrix the swapped
+check accepts left id 1 and rejects left id 3 -/
+example : checkId true 2 1 = ok 1 ∧ checkId true 2 3 = err .dataFormat ∧ checkId true 4 3 = ok 3 := by
   refine ⟨by decide, by decide, by decide⟩
 
 end C20
